@@ -41,3 +41,4 @@ def run(prog, rep):
     _runs.run_no_static_state(prog, rep)
     _rio2s.run_string_buffers(prog, rep)
     _rk2.run_getattr(prog, rep)
+    _rk2.run_getter_raw(prog, rep)
